@@ -282,4 +282,30 @@ def run(ck):
         [u(n)[:60] for n in stores if first is not None and n.lineno > first]
     ck.ob('SIB-atom-order', cli_.loc(ent_), len(writers) >= 2 and not late, 'topology and coordinates are written from the same state: no processor run, attribute assignment or edit of the '
           'system happens after the first output writer ({} writer call(s); late: {})'.format(len(writers), late), key='SIB-atom-order|writers-same-state')
+    # the value comparison behind same_nodes: whole numbers (atom / residue numbers, charge groups) are compared exactly, reals up to rounding
+    ut = ck.index.mod('vermouth/utils.py')
+    ad = ut.func('are_different')
+    ck.analysed(ut, ad)
+    import math
+    import numbers as _numbers
+
+    def _isclose(a, b, equal_nan=False, rtol=1e-05, atol=1e-08):
+        if isinstance(a, float) and isinstance(b, float) and math.isnan(a) and math.isnan(b):
+            return bool(equal_nan)
+        return abs(a - b) <= atol + rtol * abs(b)
+    cases = [(7, 7, False), (7, 8, True), (200000, 200001, True), (1000000, 1000001, True), (0, 0, False), (-3, -3, False), (1.0, 1.0 + 1e-9, False), (0.5, 0.6, True),
+             (float('nan'), float('nan'), False), (1, 1.0, True), (None, None, False), ('a', 'a', False), ('a', 'b', True), (True, False, True)]
+    bad = []
+    try:
+        for left, right, want in cases:
+            env = {'left': left, 'right': right, 'left.__class__': left.__class__, 'right.__class__': right.__class__, 'numbers.Integral': _numbers.Integral,
+                   'numbers.Number': _numbers.Number, 'np.isclose': _isclose, 'numpy.isclose': _isclose, 'str': str, 'bytes': bytes}
+            got = interp.call(ad.body, env)
+            if bool(got) != want or isinstance(got, tuple):
+                bad.append('are_different({!r}, {!r}) = {!r}, expected {}'.format(left, right, got, want))
+    except interp.Unsupported as err:
+        bad = ['outside the interpretable fragment: {}'.format(err)]
+    ck.ob('DT-same-moltype', ut.loc(ad), not bad, 'are_different, interpreted on {} value pairs: whole numbers differ whenever they are not equal (200000 vs 200001 included -- the ITP prints '
+          'these numbers), reals are compared up to rounding, nan equals nan, different types differ{}'.format(len(cases), '' if not bad else ' -- ' + '; '.join(bad[:3])),
+          key='DT-same-moltype|are_different')
     ck.assume('file contents are not decided; equal topologies are assumed to print equal text')
